@@ -5,10 +5,12 @@ cd "$(dirname "$0")/.." || exit 2
 P="$1"; shift
 [ -f "$P" ] || { echo "no such patch $P" >&2; exit 2; }
 if [ -n "$(git -C /repo status --porcelain --untracked-files=no)" ]; then echo "/repo has uncommitted changes" >&2; exit 2; fi
-if ! git -C /repo apply "$P" 2>/dev/null; then
-	if ! git -C /repo apply -3 "$P" 2>/dev/null; then
-		if ! (cd /repo && patch -p1 --fuzz=3 -s < "$P"); then echo "PATCH DOES NOT APPLY: $P"; git -C /repo checkout -- . ; exit 3; fi
-	fi
+if git -C /repo apply --check "$P" 2>/dev/null; then
+	git -C /repo apply "$P"
+elif (cd /repo && patch -p1 --fuzz=3 --dry-run -s < "$P" >/dev/null 2>&1); then
+	(cd /repo && patch -p1 --fuzz=3 -s --no-backup-if-mismatch < "$P")
+else
+	echo "PATCH DOES NOT APPLY: $P"; exit 3
 fi
 git -C /repo reset -q 2>/dev/null
 LIST="$*"
@@ -20,6 +22,6 @@ for c in $LIST; do
 		echo "$c FAILS: $(echo "$out" | grep -E '^(VIOLATED|UNDECIDED)' | cut -c1-260 | head -3 | tr '\n' '|')"
 	fi
 done
-git -C /repo checkout -- . ; git -C /repo clean -fdq -- . 2>/dev/null
+git -C /repo reset -q --hard HEAD; git -C /repo clean -fdq 2>/dev/null
 rm -rf /tmp/trymutant_ev
 echo "done $P"
